@@ -149,6 +149,9 @@ Definition payee_tag (pm xm : metamap) : str :=
   | _ => match meta_find k_Payee xm with Some (Some v) => v | _ => [] end
   end.
 
+(* a date: year, month, day *)
+Definition ymd : Type := (Z * Z * Z)%type.
+
 Record amt : Type := mkAmt {
   a_text  : str;          (* the amount as operator<< prints it (commodity, quantity, annotations) *)
   a_flags : str;          (* put_commodity's flags attribute: P S T D *)
@@ -164,13 +167,16 @@ Record post : Type := mkPost {
   p_amount  : amt;
   p_cost    : option amt;
   p_note    : option str;
+  p_date    : option ymd;      (* post._date: `[DATE]` or `[DATE=AUX]` in a note of the posting *)
+  p_aux     : option ymd;      (* post._date_aux: `[=AUX]` or `[DATE=AUX]` *)
   p_meta_inline : list mentry;   (* tags of the note on the posting line itself *)
   p_meta_later  : list mentry    (* tags of the note lines that follow the posting *)
 }.
 
 Record xact : Type := mkXact {
   x_line  : Z;
-  x_year  : Z; x_month : Z; x_day : Z;
+  x_year  : Z; x_month : Z; x_day : Z;   (* xact._date: the header date, or a `[DATE]` of a transaction note *)
+  x_aux   : option ymd;                  (* xact._date_aux: `DATE=AUX` in the header, or `[=AUX]` *)
   x_state : Z;
   x_code  : option str;
   x_payee : str;
@@ -232,11 +238,37 @@ Definition post_payee_rule (r : payee_rule) (x : xact) (p : post) : str :=
 (* the rule of the current source (Gen/PayeeRule.v, regenerated from textual.cc on every run) *)
 Definition post_payee (x : xact) (p : post) : str := post_payee_rule src_payee_rule x p.
 
+Definition fmt_ymd (d : ymd) : str := fmt_date (fst (fst d)) (snd (fst d)) (snd d).
+Definition x_primary (x : xact) : ymd := (x_year x, x_month x, x_day x).
+
+(* The reports below depend on the --aux-date flag (item_t::use_aux_date). *)
+Section Report.
+Variable use_aux : bool.
+
+(* item.h item_t::date(): with --aux-date the auxiliary date if there is one *)
+Definition xact_date (x : xact) : ymd :=
+  if use_aux then match x_aux x with Some d => d | None => x_primary x end else x_primary x.
+
+(* post.cc post_t::aux_date(): the posting's, else the transaction's *)
+Definition post_aux (x : xact) (p : post) : option ymd :=
+  match p_aux p with Some d => Some d | None => x_aux x end.
+
+(* post.cc post_t::primary_date(): the posting's own date, else xact->date() *)
+Definition post_primary (x : xact) (p : post) : ymd :=
+  match p_date p with Some d => d | None => xact_date x end.
+
+(* post.cc post_t::date() (no xdata date: no --effective / period rewriting in these reports) *)
+Definition post_date (x : xact) (p : post) : ymd :=
+  if use_aux then match post_aux x p with Some d => d | None => post_primary x p end
+  else post_primary x p.
+
 (* ------------------------------------------------------------------------------------------ *)
 (* emacs (emacs.cc:41-111, emacs.h:69-73)                                                      *)
 
 Definition emacs_xact_head (path : str) (x : xact) : str :=
-  let secs := days_from_civil (x_year x) (x_month x) (x_day x) * 86400 in
+  (* xact.date(): one date per transaction, whatever dates its postings carry *)
+  let d := xact_date x in
+  let secs := days_from_civil (fst (fst d)) (snd (fst d)) (snd d) * 86400 in
   emacs_string path ++ [32] ++ dec_Z (x_line x) ++ [32] ++
   (* C++ integer / and %: truncation toward zero, remainder has the dividend's sign *)
   [40] ++ dec_Z (Z.quot secs 65536) ++ [32] ++ dec_Z (Z.rem secs 65536) ++ [32; 48; 41; 32] ++
@@ -305,7 +337,7 @@ Definition post_note (x : xact) (p : post) : str := opt_str (p_note p) ++ opt_st
 
 Definition field_value (x : xact) (p : post) (f : csv_field) : str :=
   match f with
-  | FDate => fmt_date (x_year x) (x_month x) (x_day x)
+  | FDate => fmt_ymd (post_date x p)
   | FCode => opt_str (x_code x)
   | FPayee => post_payee x p
   | FAccount => display_account p
@@ -346,6 +378,8 @@ Definition csv_rows (fmt : list (csv_quoter * csv_field)) (xs : list xact) : lis
 
 Definition csv_out (fmt : list (csv_quoter * csv_field)) (xs : list xact) : str :=
   csv_text (csv_rows fmt xs).
+
+End Report.
 
 (* ------------------------------------------------------------------------------------------ *)
 (* xml: a property tree and boost's writer                                                     *)
@@ -392,6 +426,7 @@ Definition k_pending : str := [112;101;110;100;105;110;103].
 Definition k_virtual : str := [118;105;114;116;117;97;108].
 Definition k_true : str := [116;114;117;101].
 Definition k_date : str := [100;97;116;101].
+Definition k_aux_date : str := [97;117;120;45;100;97;116;101].
 Definition k_code : str := [99;111;100;101].
 Definition k_payee : str := [112;97;121;101;101].
 Definition k_note : str := [110;111;116;101].
@@ -453,22 +488,27 @@ Definition put_amount_kids (a : amt) : list (str * ptree) :=
    | None => []
    end) ++ [(k_quantity, leaf (a_qty a))].
 
-(* post.cc put_post, without the running <total> (stripped from ledger's output before comparing) *)
+(* post.cc put_post (the posting's own dates first: element date for _date, aux-date for _date_aux),
+   without the running <total> (stripped from ledger's output before comparing) *)
 Definition put_post (x : xact) (p : post) : ptree :=
   Node []
     (state_attr (eff_state x p) ++ (if p_virtual p =? 0 then [] else [(k_virtual, k_true)]))
-    ((if is_nil (payee_from_tag x p) then [] else [(k_payee, leaf (payee_from_tag x p))]) ++
+    ((match p_date p with Some d => [(k_date, leaf (fmt_ymd d))] | None => [] end) ++
+     (match p_aux p with Some d => [(k_aux_date, leaf (fmt_ymd d))] | None => [] end) ++
+     (if is_nil (payee_from_tag x p) then [] else [(k_payee, leaf (payee_from_tag x p))]) ++
      [(k_account, Node [] [(k_ref, k_addr)] [(k_name, leaf (p_account p))]);
       (k_post_amount, Node [] [] [(k_amount, Node [] [] (put_amount_kids (p_amount p)))])] ++
      (match p_cost p with Some c => [(k_cost, Node [] [] (put_amount_kids c))] | None => [] end) ++
      (match p_note p with Some n => [(k_note, leaf n)] | None => [] end) ++
      metadata_kids (build_meta (p_meta_inline p ++ p_meta_later p))).
 
-(* xact.cc put_xact + the <postings> child added by format_ptree::flush *)
+(* xact.cc put_xact (element date for _date, aux-date for _date_aux - the xml output does not
+   depend on --aux-date) + the <postings> child added by format_ptree::flush *)
 Definition put_xact (x : xact) : ptree :=
   Node []
     (state_attr (x_state x))
-    ([(k_date, leaf (fmt_date (x_year x) (x_month x) (x_day x)))] ++
+    ([(k_date, leaf (fmt_ymd (x_primary x)))] ++
+     (match x_aux x with Some d => [(k_aux_date, leaf (fmt_ymd d))] | None => [] end) ++
      (match x_code x with Some c => [(k_code, leaf c)] | None => [] end) ++
      [(k_payee, leaf (x_payee x))] ++
      (match x_note x with Some n => [(k_note, leaf n)] | None => [] end) ++
